@@ -7,7 +7,7 @@ PARTIAL = ["C01_any_route for decoded / imported / mutated values follows from C
 COQ_IMPORTS = ["RM.Types", "RMR.RunV"]
 COQ_FN = "RunV.run_c01"
 COQ_CASE_TY = "(ty * val)"
-NAMES = ["P:root_constructor", "P:root_decoded", "P:root_from_obj"]
+NAMES = ["P:root_constructor", "P:root_decoded", "P:root_from_obj", "P:root_default_then_mutated"]
 RULE = ("random type expressions (10 kinds, nesting <= 3, lengths/limits from chunk / power-of-two boundary sets, up "
         "to 2^40) x random values (boundary lengths, all-zero/all-one/random content) x routes {constructor, "
         "decode_bytes(encode_bytes), from_obj(to_obj)}; non-trivial = composite type and non-zero value")
@@ -17,12 +17,41 @@ def gen_inputs(ctx):
     return gen_tv(ctx, 1500 if ctx.thorough else 350)
 
 
+def mutate_into(t, v):
+    """start from the default value and mutate it, element by element, into v"""
+    C = T(t)
+    k = t[0]
+    x = C.default(None) if is_basic(t) else C()
+    if is_basic(t) or k in ("bytevec", "bytelist"):
+        return to_py(t, v)
+    if k == "bitvec":
+        for i, c in enumerate(v):
+            x[i] = (c == "1")
+    elif k == "bitlist":
+        for c in v:
+            x.append(c == "1")
+    elif k == "vec":
+        for i, e in enumerate(v):
+            x[i] = mutate_into(t[1], e)
+    elif k == "list":
+        for e in v:
+            x.append(mutate_into(t[1], e))
+    elif k == "cont":
+        for i, (f, e) in enumerate(zip(t[1], v)):
+            setattr(x, "f%d" % i, mutate_into(f, e))
+    elif k == "union":
+        sel, e = v
+        o = union_opt(t, sel)
+        x.change(selector=sel, value=None if o is None else mutate_into(o, e))
+    return x
+
+
 def build(inp):
     t, v = inp["t"], inp["v"]
     C = T(t)
     x = attempt(lambda: to_py(t, v), anyerr=True)
     if isinstance(x, E):
-        obs = [x, x, x]
+        obs = [x, x, x, x]
     else:
         r1 = attempt(lambda: x.hash_tree_root(), anyerr=True)
         if is_basic(t):
@@ -34,5 +63,6 @@ def build(inp):
                 return C.decode_bytes(x.encode_bytes()).hash_tree_root()
         r2 = attempt(dec, anyerr=True)
         r3 = attempt(lambda: C.from_obj(x.to_obj()).hash_tree_root(), anyerr=True)
-        obs = [r1, r2, r3]
+        r4 = attempt(lambda: mutate_into(t, v).hash_tree_root(), anyerr=True)
+        obs = [r1, r2, r3, r4]
     return Case(inp, "(%s, %s)" % (ty_coq(t), val_coq(t, v)), obs, NAMES, nontrivial=nontrivial_tv(t, v), kind=t[0])
